@@ -187,10 +187,8 @@ func (s Server) Serve(c context.Context, conn network.Conn) (err error) {
 		s.putRequestContext(ctx)
 	}()
 
-	ctx.HTMLRender = s.HTMLRender
 	ctx.SetConn(conn)
 
-	ctx.Request.SetIsTLS(s.TLS != nil)
 	ctx.SetEnableTrace(s.EnableTrace)
 
 	if !s.NoDefaultServerHeader {
@@ -236,6 +234,10 @@ func (s Server) Serve(c context.Context, conn network.Conn) (err error) {
 			})
 		}
 
+		// what the server hands to the context is handed over for every request: a handler
+		// may have replaced it for its own answer
+		ctx.HTMLRender = s.HTMLRender
+		ctx.Request.SetIsTLS(s.TLS != nil)
 		ctx.Response.Header.SetNoDefaultDate(s.NoDefaultDate)
 		ctx.Response.Header.SetNoDefaultContentType(s.NoDefaultContentType)
 
